@@ -1,7 +1,7 @@
 SPECIFICATION Spec
 CONSTANTS
-  Mode = "ctx"
-  MaxLen = 2
+  Mode = "all"
+  MaxLen = 3
   Kinds = {"raw", "bs", "hex", "hex6"}
 INVARIANTS SpecRoundTrip Emit
 CHECK_DEADLOCK FALSE
